@@ -9,7 +9,7 @@
 (***************************************************************************)
 EXTENDS PsaWire, TraceLib
 VARIABLES l, bad, kf
-tvars == <<obj, ret, l, bad, kf>>
+tvars == <<l, bad, kf>>
 
 RegOf(e) == LET names == {e.reg[i].name : i \in 1..Len(e.reg)} IN
             [n \in names |-> LET i == CHOOSE j \in 1..Len(e.reg) : e.reg[j].name = n IN
@@ -64,19 +64,21 @@ EncodeJSONOK(e) ==
                    /\ LET d == DispatchJSON(RegOf(e), e.doc) IN d.r = "ok" /\ d.e.impl = e.redec.impl
                    /\ e.crossOK /\ e.crossEq)
   /\ (~Valid(o) => ~e.vencOK)
+\* MODE=dispatch (C07): the acceptance deviations that belong to C04 (D9, D10, D11) are tolerated silently,
+\* what remains is the dispatch: chosen implementation, unregistered => error, reported profile
+AllTol == {"D9", "D10", "D11"}
 MatchT(tol, e) ==
-  CASE e.op = "DecodeCBOR" -> DecodeCBOROK(tol, e)
+  CASE e.op = "DecodeCBOR" -> DecodeCBOROK(IF Mode = "dispatch" THEN AllTol ELSE tol, e)
     [] e.op = "EncodeCBOR" -> EncodeCBOROK(e)
     [] e.op = "EncodeJSON" -> EncodeJSONOK(e)
     [] OTHER -> FALSE
-TInit == l = 1 /\ bad = <<>> /\ kf = <<>> /\ obj = Blank("P1", P1Name) /\ ret = RetRec("New", "none", RetOK(Abs), Abs)
+TInit == l = 1 /\ bad = <<>> /\ kf = <<>>
 TNext == /\ l <= Len(Trace) /\ l' = l + 1
          /\ LET e == Trace[l]
                 M(T) == MatchT(T, e)
                 x == Explain(M) IN
             /\ bad' = IF x.found THEN bad ELSE Append(bad, l)
             /\ kf' = IF x.found /\ x.ids # {} THEN Append(kf, [i |-> l, ids |-> x.ids]) ELSE kf
-         /\ UNCHANGED <<obj, ret>>
 TSpec == TInit /\ [][TNext]_tvars
 IsDec(i) == Trace[i].op = "DecodeCBOR"
 Verdict == l = Len(Trace) + 1 =>
